@@ -98,9 +98,11 @@ def shift_spec(b, c):
 
 def dbl(b):
     """RFC 4493 2.3 step 2/3: (b << 1) if MSB(b) == 0 else (b << 1) XOR const_Rb, on 128-bit strings"""
-    if at(b, 0) >= 128:
-        return shift_spec(b, 0x87)
-    return shift_spec(b, 0)
+    if at(b, 0) & 0x80:  # MSB(b) = 1
+        r = shift_spec(b, 0x87)
+    else:
+        r = shift_spec(b, 0)
+    return r
 
 
 def cmac_rfc(k, m):
